@@ -1,4 +1,6 @@
-CONSTANT AsCoded = TRUE
+CONSTANTS
+  AsCoded = TRUE
+  GateHole = FALSE
 INIT IInit
 NEXT INext
 CHECK_DEADLOCK FALSE
